@@ -1016,4 +1016,64 @@ theorem Spec.run_safe (ops : List Op) : ∀ (l : Log) (t : Nat),
     simp only [Spec.run, List.mem_cons, not_or]
     exact ⟨⟨fun e => ho.1 e.symm, h.1⟩, ⟨fun e => ho.2 e.symm, h.2⟩⟩
 
+/-- `Own hist e`: the entry's request tag points at a `req` of its ID in the history and its
+    response tag (if any) at a later `res` of the same ID. -/
+def Own (hist : List Op) (e : Ent) : Prop :=
+  hist[e.rq]? = some (.req e.id) ∧ ∀ j, e.rs = some j → hist[j]? = some (.res e.id) ∧ e.rq < j
+
+theorem own_step (hist : List Op) (l : Log) (t : Nat) (o : Op) (ht : hist[t]? = some o)
+    (hl : ∀ e ∈ l, Own hist e ∧ e.rq < t) :
+    ∀ e ∈ (Spec.step l t o).1, Own hist e ∧ e.rq < t + 1 := by
+  intro e he
+  cases o with
+  | req id =>
+    simp only [Spec.step, Spec.req] at he
+    split at he
+    · have := hl e he; exact ⟨this.1, by omega⟩
+    · rw [List.mem_append] at he
+      rcases he with he | he
+      · have := hl e he; exact ⟨this.1, by omega⟩
+      · simp at he; subst he
+        exact ⟨⟨ht, by simp⟩, by simp⟩
+  | res id =>
+    simp only [Spec.step, Spec.res, List.mem_map] at he
+    obtain ⟨e0, he0, rfl⟩ := he
+    have h0 := hl e0 he0
+    by_cases hid : e0.id = id
+    · subst hid
+      simp only [if_true]
+      refine ⟨⟨h0.1.1, ?_⟩, by simpa using Nat.lt_succ_of_lt h0.2⟩
+      intro j hj
+      simp at hj; subst hj
+      exact ⟨ht, h0.2⟩
+    · simp only [hid, if_false]; exact ⟨h0.1, by omega⟩
+  | exp => have := hl e he; exact ⟨this.1, by omega⟩
+  | xreset =>
+    simp only [Spec.step, List.mem_filter] at he
+    have := hl e he.1; exact ⟨this.1, by omega⟩
+  | reset => simp [Spec.step] at he
+
+theorem own_outputs (ops : List Op) : ∀ (pre : List Op) (l : Log),
+    (∀ e ∈ l, Own (pre ++ ops) e ∧ e.rq < pre.length) →
+    ∀ es, Obs.log es ∈ Spec.run l pre.length ops → ∀ e ∈ es, Own (pre ++ ops) e := by
+  induction ops with
+  | nil => intro pre l _ es h; simp [Spec.run] at h
+  | cons o os ih =>
+    intro pre l hl es h e he
+    simp only [Spec.run, List.mem_cons] at h
+    rcases h with h | h
+    · cases o with
+      | req id => simp only [Spec.step, Spec.req] at h; split at h <;> cases h
+      | res id => cases h
+      | exp => simp only [Spec.step] at h; cases h; exact (hl e he).1
+      | xreset =>
+        simp only [Spec.step] at h; cases h
+        exact (hl e (List.mem_filter.mp he).1).1
+      | reset => cases h
+    · have hidx : (pre ++ o :: os)[pre.length]? = some o := by simp
+      have hstep := own_step (pre ++ o :: os) l pre.length o hidx hl
+      have := ih (pre ++ [o]) (Spec.step l pre.length o).1
+        (by simpa [List.append_assoc] using hstep) es (by simpa using h) e he
+      simpa [List.append_assoc] using this
+
 end Martian.HarLog
